@@ -3,7 +3,7 @@
    ascii and string stay extracted inductive datatypes.  No Extract Constant of our own. *)
 Require Extraction.
 Require ExtrOcamlBasic.
-From GG Require Registry Sched Exec ExecSpec Coerce Text Json Schema Introspect.
+From GG Require Registry Sched Exec ExecSpec Coerce Text Json Schema Introspect Sdl.
 Extraction Language OCaml.
 Extraction "model.ml"
   Registry.run Registry.a_run Registry.trace Registry.trace_okb
@@ -12,4 +12,5 @@ Extraction "model.ml"
   Coerce.coerce_input Coerce.leaf_out Coerce.conforms Coerce.denotes Coerce.has_shape Coerce.out_faithful
   Text.parse_value Text.write_value Text.parse_int64 Json.json_parse Json.to_json
   Schema.loads_m Schema.observe Schema.view_of_items Schema.ok Schema.errors_in Schema.drop_core_redecl
-  Introspect.schema_answer Introspect.type_answer Introspect.dec_type.
+  Introspect.schema_answer Introspect.type_answer Introspect.dec_type
+  Sdl.write_desc Sdl.read_desc_text Sdl.canonical.
